@@ -303,7 +303,186 @@ def oracle_calllog_bd(ctx):
                 samples=samples, failures=failures)
 
 
+# ------------------------------------------------------------------ second-quantised lazily defined Hamiltonians
+
+SQ_TERMS_SCALAR = ["xa", "na", "xb", "hop", "nb", "nanb", "nc", "xa_nc"]
+SQ_TERMS_MATRIX = ["off_a", "diag_na", "id_xa", "diag_const", "off_b", "diag_nb"]
+
+
+def sq_problem(rng):
+    """H_0 is a number-conserving operator expression (every operator of the perturbation occurs in H_0);
+    JSON-able description: the terms are codes with rational coefficients"""
+    npar = rng.choice([1, 2])
+    kind = rng.choice(["scalar", "matrix"])
+    has_b = rng.random() < 0.5
+    has_c = kind == "scalar" and rng.random() < 0.3
+    wa, wb, wc = rng.sample([2, 3, 5, 7], 3)
+    delta = rng.choice(["1/2", "3", "4/3"])
+    pool = [t for t in (SQ_TERMS_SCALAR if kind == "scalar" else SQ_TERMS_MATRIX)
+            if ("b" not in t.replace("nb", "b") or has_b) and ("nc" not in t or has_c)]
+    if not has_b:
+        pool = [t for t in pool if t not in ("xb", "hop", "nb", "nanb", "off_b", "diag_nb")]
+    maxo = 2
+    terms = []
+    for o in itertools.product(range(maxo + 2), repeat=npar):
+        if sum(o) == 0 or sum(o) > maxo + 1:
+            continue
+        if sum(o) == 1 or rng.random() < 0.45:
+            chosen = rng.sample(pool, min(len(pool), rng.randint(1, 2)))
+            terms.append([list(o), [[t, "%d/%d" % (rng.choice([-2, -1, 1, 2, 3]), rng.choice([1, 2, 3]))] for t in chosen]])
+    return dict(npar=npar, kind=kind, has_b=has_b, has_c=has_c, w=[wa, wb, wc], delta=delta, terms=terms)
+
+
+def sq_build(prob, log, forbid=None, scale_outside=None):
+    import warnings
+    import sympy
+    from sympy.physics.quantum import Dagger
+    from sympy.physics.quantum.boson import BosonOp
+    from sympy.physics.quantum.fermion import FermionOp
+    from pymablock import block_diagonalize
+    from pymablock.series import BlockSeries, zero
+
+    a, b, c = BosonOp("a"), BosonOp("b"), FermionOp("c")
+    na, nb_, nc = Dagger(a) * a, Dagger(b) * b, Dagger(c) * c
+    wa, wb, wc = prob["w"]
+    delta = sympy.Rational(prob["delta"])
+    sc = dict(xa=a + Dagger(a), na=na, xb=b + Dagger(b), hop=Dagger(a) * b + Dagger(b) * a, nb=nb_, nanb=na * nb_,
+              nc=nc, xa_nc=(a + Dagger(a)) * nc)
+    M = sympy.Matrix
+    mx = dict(off_a=M([[0, Dagger(a)], [a, 0]]), diag_na=M([[na, 0], [0, -na]]), id_xa=M([[a + Dagger(a), 0], [0, a + Dagger(a)]]),
+              diag_const=M([[1, 0], [0, -2]]), off_b=M([[0, Dagger(b)], [b, 0]]), diag_nb=M([[nb_, 0], [0, 2 * nb_]]))
+    npar = prob["npar"]
+    if prob["kind"] == "scalar":
+        h0 = wa * na + (wb * nb_ if prob["has_b"] else 0) + (wc * nc if prob["has_c"] else 0)
+        table = {tuple(o): sum((sympy.Rational(cf) * sc[t] for t, cf in ts), sympy.Integer(0)) for o, ts in prob["terms"]}
+    else:
+        e0 = wa * na + (wb * nb_ if prob["has_b"] else 0)
+        h0 = M([[e0, 0], [0, e0 + delta]])
+        table = {tuple(o): sum((sympy.Rational(cf) * mx[t] for t, cf in ts), sympy.zeros(2, 2)) for o, ts in prob["terms"]}
+
+    def ev(*orders):
+        n = tuple(int(i) for i in orders)
+        log.append((-1, -1) + n)
+        if forbid is not None and not in_cones(n, forbid):
+            raise AssertionError("Hamiltonian term %s touched outside the cones <= %s" % (n, forbid))
+        if not any(n):
+            return h0
+        if n in table:
+            t = table[n]
+            if scale_outside is not None and not in_cones(n, scale_outside[0]):
+                t = scale_outside[1] * t
+            return t
+        return zero
+
+    H = BlockSeries(eval=ev, shape=(), n_infinite=npar, name="H")
+    with warnings.catch_warnings():
+        warnings.simplefilter("ignore")
+        out = block_diagonalize(H) if prob["kind"] == "scalar" else block_diagonalize(H, subspace_indices=[0, 1])
+    return out, H
+
+
+def sq_same(v, w):
+    import sympy
+    from pymablock.series import one, zero
+
+    def flat(x):
+        if x is zero:
+            return [sympy.Integer(0)]
+        if x is one:
+            return [sympy.Integer(1)]
+        if isinstance(x, sympy.MatrixBase):
+            return list(x)
+        return [x]
+
+    fv, fw = flat(v), flat(w)
+    if len(fv) != len(fw):
+        # a zero block of any shape
+        return all(sq_is_zero(x) for x in fv) and all(sq_is_zero(x) for x in fw)
+    return all(sq_is_zero(x - y) for x, y in zip(fv, fw))
+
+
+def sq_is_zero(d):
+    import sympy
+
+    if d == 0:
+        return True
+    if hasattr(d, "as_expr"):
+        d = d.as_expr()
+    try:
+        return sympy.simplify(sympy.expand(d)) == 0
+    except Exception:  # noqa: BLE001
+        return False
+
+
+def sq_check(prob, reqs):
+    log = []
+    zeros = (0,) * prob["npar"]
+    try:
+        sq_build(prob, [], forbid=[zeros])
+    except AssertionError as e:
+        return "defining the block diagonalization failed when only zeroth-order terms are available: %s" % e
+    out, H = sq_build(prob, log)
+    if any(any(e[2:]) for e in log):
+        return "defining the block diagonalization evaluated a non-zeroth-order term %s" % ([e[2:] for e in log if any(e[2:])][0],)
+    values = []
+    for (s, ix) in reqs:
+        n = tuple(ix[2:])
+        before = len(log)
+        values.append(out[s][tuple(ix)])
+        for e in log[before:]:
+            if not leq(e[2:], n):
+                return "request %s evaluated the Hamiltonian term %s outside the cone" % ((s, ix), e[2:])
+    if len(set(log)) != len(log):
+        return "a Hamiltonian term was evaluated more than once: %s" % ([e[2:] for e in set(log) if log.count(e) > 1][0],)
+    for k, (s, ix) in enumerate(reqs):
+        n = tuple(ix[2:])
+        out2, _ = sq_build(prob, [], forbid=[n])
+        try:
+            v2 = out2[s][tuple(ix)]
+        except AssertionError as e:
+            return "request %s: %s" % ((s, ix), e)
+        out3, _ = sq_build(prob, [], scale_outside=([n], 7))
+        v3 = out3[s][tuple(ix)]
+        if not sq_same(v2, values[k]) or not sq_same(v3, values[k]):
+            return "value of %s changed when Hamiltonian terms outside the cone were altered" % ((s, ix),)
+    return None
+
+
+def oracle_calllog_2q(ctx):
+    rng = ctx.rng
+    evaluations = nontrivial = 0
+    failures, samples = [], []
+    dist = {}
+    for _ in range(ctx.n(10, 120)):
+        prob = sq_problem(rng)
+        orders = [o for o in itertools.product(range(3), repeat=prob["npar"]) if sum(o) <= 2]
+        nblk = 1 if prob["kind"] == "scalar" else 2
+        reqs = [(rng.randrange(3), [rng.randrange(nblk), rng.randrange(nblk)] + list(rng.choice(orders))) for _ in range(3)]
+        reqs[0] = (reqs[0][0], reqs[0][1][:2] + [0] * prob["npar"])  # a request at order 0 first
+        evaluations += 1
+        if any(sum(r[1][2:]) >= 2 for r in reqs):
+            nontrivial += 1
+        key = "%s/%dp" % (prob["kind"], prob["npar"])
+        dist[key] = dist.get(key, 0) + 1
+        try:
+            what = sq_check(prob, reqs)
+        except Exception as e:  # noqa: BLE001
+            what = "block_diagonalize request raised %s: %s" % (type(e).__name__, str(e)[:200])
+        if what:
+            failures.append(dict(what=what, input=dict(level="second_quantised", problem=prob, requests=[[r[0], r[1]] for r in reqs])))
+        if len(samples) < 1:
+            samples.append(dict(problem=prob, requests=reqs))
+    return dict(evaluations=evaluations, nontrivial=nontrivial,
+                rule="second-quantised lazily defined Hamiltonians (scalar and 2x2, 1-2 parameters) with a request at total order >= 2; %s" % dist,
+                samples=samples, failures=failures)
+
+
 def replay_input(inp):
+    if inp.get("level") == "second_quantised":
+        try:
+            return sq_check(inp["problem"], [(r[0], r[1]) for r in inp["requests"]])
+        except Exception as e:  # noqa: BLE001
+            return "block_diagonalize request raised %s" % type(e).__name__
     if inp.get("level") == "block_diagonalize":
         try:
             return bd_check(inp["problem"], [(r[0], r[1]) for r in inp["requests"]])
